@@ -301,7 +301,7 @@ def translate(pytd, serialize_ast, pickle_utils) -> Schema:
       "From Coq Require Import List String ZArith.\n"
       "From PV Require Import Serial.Model.\n"
       "Import ListNotations.\nLocal Open Scope string_scope.\n\n"
-      "Definition schema : Model.schema := mkSchema %s [\n%s\n ] [\n%s\n ] %s.\n\n"
+      "Definition pytd_schema : Model.schema := mkSchema %s [\n%s\n ] [\n%s\n ] %s.\n\n"
       "Definition root : string := %s.\n" % (
           coq_str(sch.tagfield), ";\n".join(lines), ";\n".join(elines), det, coq_str(sch.root)))
   return sch
